@@ -243,7 +243,7 @@ def race(ctx, P):
             ctx.prove(val == sorted(val) and set(val) <= set(t.listed()), "race-ascending-listed", detail=f"thread {i}: {val}")
 
 
-@harness("C04.pid_exists", quick=[dict(status=s_) for s_ in ("ok", "EPERM", "EACCES", "ENOENT", "ESRCH-on-read", "no-tgid", "kill-EPERM")])
+@harness("C04.pid_exists", quick=[dict(status=s_) for s_ in ("ok", "EPERM", "EACCES", "ENOENT", "ESRCH-on-read", "no-tgid", "kill-EPERM", "name:Tgid:\t<tid>", "name:Tgid:\t<tgid>", "name:x Tgid:\t1")])
 def pid_exists(ctx, status="ok"):
     """pid_exists(n) for ONE unconstrained integer n: True exactly for the listed PIDs, False for thread ids, negative and
     absent numbers, never an exception for a non-negative int -- also when /proc/<n>/status cannot be read (permission refused,
@@ -254,7 +254,11 @@ def pid_exists(ctx, status="ok"):
     n = ctx.int("n")
     for p in t.listed() + [TID]:
         path = f"/proc/{p}/status"
-        if status in ("EPERM", "EACCES", "ENOENT"):
+        if status.startswith("name:"):
+            # a task whose NAME imitates the Tgid line (the kernel escapes only newline and backslash on the Name: line)
+            k.files[path] = simk.STATUS_TMPL.format(comm=status[5:].replace("<tgid>", "12").replace("<tid>", str(TID)), pid=12 if p == TID else p, ppid=1).replace("Pid:\t12\n", f"Pid:\t{p}\n") if p == TID else \
+                simk.STATUS_TMPL.format(comm=status[5:].replace("<tgid>", "99").replace("<tid>", str(TID)), pid=p, ppid=1)
+        elif status in ("EPERM", "EACCES", "ENOENT"):
             k.files[path] = simk.oserr(getattr(errno, status), path)
         elif status == "ESRCH-on-read":
             k.files[path] = simk.fails_on_read(k, path)
